@@ -46,11 +46,19 @@ type Item struct {
 type Spec struct {
 	Module string `json:"module"`
 	Items  []Item `json:"items"`
+	// FullImports: type-check imported non-standard packages (other packages of
+	// the repository, miekg/dns, ...) from source instead of standing empty
+	// packages in for them. Slower (seconds), but constants such as dns.TypeA
+	// get their values and functions may take / call types and functions of other
+	// packages of the repository.
+	FullImports bool `json:"full_imports"`
 }
 
 var (
-	repo string
-	out  strings.Builder
+	repo        string
+	out         strings.Builder
+	fullImports bool
+	modulePath  string
 )
 
 func broken(format string, a ...any) {
@@ -81,7 +89,7 @@ func (f *fakeImporter) Import(path string) (*types.Package, error) {
 	if i := strings.Index(path, "/"); i >= 0 {
 		first = path[:i]
 	}
-	if !strings.Contains(first, ".") {
+	if !strings.Contains(first, ".") || fullImports {
 		if p, err := f.std.Import(path); err == nil {
 			return p, nil
 		}
@@ -504,6 +512,15 @@ func main() {
 	flag.StringVar(&specPath, "spec", "", "spec json")
 	flag.StringVar(&outPath, "out", "", "output .v")
 	flag.Parse()
+	if a, err := filepath.Abs(outPath); err == nil {
+		outPath = a
+	}
+	if a, err := filepath.Abs(specPath); err == nil {
+		specPath = a
+	}
+	if a, err := filepath.Abs(repo); err == nil {
+		repo = a
+	}
 	b, err := os.ReadFile(specPath)
 	if err != nil {
 		fmt.Println("srcgen:", err)
@@ -514,6 +531,15 @@ func main() {
 		fmt.Println("srcgen: bad spec:", err)
 		os.Exit(2)
 	}
+	fullImports = spec.FullImports
+	if gm, err := os.ReadFile(filepath.Join(repo, "go.mod")); err == nil {
+		for _, l := range strings.Split(string(gm), "\n") {
+			if strings.HasPrefix(l, "module ") {
+				modulePath = strings.TrimSpace(strings.TrimPrefix(l, "module "))
+			}
+		}
+	}
+	_ = os.Chdir(repo) // go/build resolves module packages relative to the working directory
 	fmt.Fprintf(&out, "(* GENERATED by harness/srcgen from /repo's working tree — do not edit.\n   Module %s. Regenerated on every check run. *)\nFrom Sdns Require Import Common.Base.\nOpen Scope Z_scope.\n\n", spec.Module)
 	for _, it := range spec.Items {
 		if it.Type == "" {
